@@ -594,6 +594,52 @@ def holdsC03Cycles (cfg : KillCfg) (firstViews : List (List View)) (ticks : List
       cur := none
   return viol.eraseDups
 
+/-! ## C01 on kill cycles that wait for a hook: containment on the resume path
+
+The victim of a resumed kill is restored from a (path, id) reference; its pids are read through the directory descriptors of
+the *resuming* tick's contexts.  Clauses (on the implementation's events and the tree of the tick they happen in): every
+signal goes to a positive pid listed by a `cgroup.procs` read of the same attempt; every such read, xattr write and control
+file write of an attempt names the victim or a cgroup inside its subtree; the victim was a candidate when the cycle started. -/
+
+partial def subIds : View → List Nat
+  | v => v.id :: v.children.flatMap subIds
+
+def holdsC01Cycles (cfg : KillCfg) (perTick : List (List View × List View)) (ticks : List ImplTick) : List String := Id.run do
+  let mut viol : List String := []
+  let mut cands : List Nat := []             -- candidate ids of the cycle in progress (roots, + descendants if recursive)
+  for (t, i) in ticks.zipIdx do
+    let (views, roots) := perTick.getD i ([], [])
+    if t.fresh then
+      cands := roots.map (·.id)              -- the resolved roots of the tick the cycle started on
+    -- with recursive targeting: any cgroup that is now below one of those roots (children are listed when the loop descends)
+    let below : List Nat := if cfg.recursive then (cands.filterMap (findView views)).flatMap subIds else []
+    let mut victim : Option Nat := none
+    let mut seen : List Int := []
+    for s in t.evs do
+      match s.ev with
+      | .k e cg start _ =>
+        if start then
+          victim := cg
+          seen := []
+          match cg with
+          | some c => if !(cands.contains c || below.contains c) then viol := viol ++ ["C01.victim_matched_across_hook_wait"]
+          | none => pure ()
+        let inSub (c : Nat) : Bool := match victim.bind (findView views) with
+          | some v => (subIds v).contains c
+          | none => false
+        match e with
+        | .procs c pids =>
+          if !(inSub c) then viol := viol ++ ["C01.signals_contained_across_hook_wait.other_cgroup_procs"]
+          else seen := seen ++ pids.getD []
+        | .kill pid _ =>
+          if pid ≤ 0 then viol := viol ++ ["C01.signals_contained_across_hook_wait.positive_pid"]
+          else if !(seen.contains pid) then viol := viol ++ ["C01.signals_contained_across_hook_wait.listed"]
+        | .setxattr c _ _ _ _ => if victim != some c then viol := viol ++ ["C01.writes_contained_across_hook_wait.xattr"]
+        | .write c _ _ => if victim != some c then viol := viol ++ ["C01.writes_contained_across_hook_wait.control_file"]
+        | _ => pure ()
+      | _ => pure ()
+  return viol.eraseDups
+
 /-! ## one scenario -/
 
 def count (l : List String) (x : String) : Nat := (l.filter (· == x)).length
@@ -645,11 +691,13 @@ def handle (j : Json) : Json := Id.run do
   let hs := holdsC07 prio (!kcfg.dry) trees impls
   -- the scenario's `prop` says whose clauses decide `holds` (C07 by default; C03 / C17 run this engine as a second pass)
   let prop := jstr sc "prop"
-  let allViol := (hs.viol ++ holdsC03Cycles kcfg (tins0.map fun (_, _, roots) => roots) impls).eraseDups
+  let allViol := (hs.viol ++ holdsC03Cycles kcfg (tins0.map fun (_, _, roots) => roots) impls ++
+    holdsC01Cycles kcfg (tins0.map fun (_, views, roots) => (views, roots)) impls).eraseDups
   let viol := allViol.filter fun c =>
     if prop == "C03" then c.startsWith "C03."
+    else if prop == "C01" then c.startsWith "C01."
     else if prop == "C17" then c.startsWith "return_async_iff_hook_outstanding"
-    else !c.startsWith "C03."
+    else !(c.startsWith "C03." || c.startsWith "C01.")
   -- accepts: run the model
   let env := envOf impls
   -- cgroups of tick i that are gone (removed / re-created) on some later tick: where the trace leaves the order of a
